@@ -19,6 +19,7 @@ class Shims:
         self.interrupt_plan = {}   # (thread_name, nth_wait) -> exception to raise inside Event.wait
         self.wait_counts = {}
         self.executors = []
+        self.exec_observers = []   # observers(executor name, 'submit'|'pick'|'finish', fn)
 
         class Lock:
             _n = 0
@@ -223,6 +224,8 @@ class Shims:
                 if self.shut:
                     raise RuntimeError('cannot schedule new futures after shutdown')
                 f = CoopFuture()
+                for _o in shims.exec_observers:
+                    _o(self.name, 'submit', fn)
                 self.queue.append((f, fn, args, kwargs))
                 self.max_queued = max(self.max_queued, len(self.queue))
                 self.max_inflight = max(self.max_inflight, len(self.queue) + self.running)
@@ -240,6 +243,8 @@ class Shims:
                     if not self.queue:
                         return
                     f, fn, args, kwargs = self.queue.pop(0)
+                    for _o in shims.exec_observers:
+                        _o(self.name, 'pick', fn)
                     self.running += 1
                     self.max_running = max(self.max_running, self.running)
                     try:
@@ -248,9 +253,16 @@ class Shims:
                         raise
                     except BaseException as e:   # noqa: like concurrent.futures
                         self.running -= 1
+                        # the future completes (waiters are released, done callbacks run) now
+                        for _o in shims.exec_observers:
+                            _o(self.name, 'finish', fn)
                         f._finish(exc=e)
+                        s.point(('task-finished', self.name))
+                        continue
                     else:
                         self.running -= 1
+                        for _o in shims.exec_observers:
+                            _o(self.name, 'finish', fn)
                         f._finish(result=r)
                     s.point(('task-finished', self.name))
 
